@@ -62,6 +62,35 @@ func init() {
 		r2 := c04Decode(y[0].I32(), y[1].U64s())
 		return L(U64s(r1), U64s(r2))
 	}
+	// widening: adjacent windows, indices of a window, decode-then-re-encode
+	Exec["bmtree.AllPaths/split"] = func(a []V) string {
+		T, x, y, z := a[0].I32(), a[1].U64(), a[2].U64(), a[3].U64()
+		if !(x <= y && y <= z) {
+			panic("out of the correspondence domain")
+		}
+		return L(U64s(c04AllPaths(T, x, y)), U64s(c04AllPaths(T, y, z)), U64s(c04AllPaths(T, x, z)))
+	}
+	Exec["bmtree.AllPaths/index"] = func(a []V) string {
+		T := a[0].I32()
+		if !c04DecOK(T) {
+			panic("out of the correspondence domain")
+		}
+		ps := c04AllPaths(T, a[1].U64(), a[2].U64())
+		idx := make([]int32, len(ps))
+		for i, p := range ps {
+			idx[i] = bmtree.PathToIndex(T, p)
+		}
+		return I32s(idx)
+	}
+	Exec["bmtree.Decode/reencode"] = func(a []V) string {
+		T := a[0].I32()
+		ps := c04Decode(T, a[1].U64s())
+		idx := make([]int32, len(ps))
+		for i, p := range ps {
+			idx[i] = bmtree.PathToIndex(T, p)
+		}
+		return L(I32s(idx), U64s(bitmap.Of(idx)))
+	}
 	Exec["bmtree.Decode/roundtrip"] = func(a []V) string {
 		T := a[0].I32()
 		if !c04DecOK(T) {
@@ -73,6 +102,35 @@ func init() {
 			idx = append(idx, bmtree.PathToIndex(T, c10Word(h, q)))
 		}
 		return U64s(c04Decode(T, bitmap.Of(idx)))
+	}
+	// widening: the sub-tree of a node as a window [word of q, word of the right-most leaf below q + 1)
+	Exec["bmtree.AllPaths/subtree"] = func(a []V) string {
+		T := a[0].I32()
+		h := int32(c04Height(T))
+		b, l := c10Bits(a[1], h)
+		if T < 1 || l > h || h-l > 13 {
+			panic("out of the correspondence domain")
+		}
+		from := bmtree.NewPath(b, l, h)
+		to := bmtree.NewPath(b|(uint64(1)<<uint(h-l)-1), h, h) + 1
+		return U64s(bmtree.AllPaths(T, from, to))
+	}
+	// widening across C11/C03/C12: keys -> PathsOf (dedup) -> PathToIndex -> Of -> Decode
+	Exec["bmtree.PathsOf/decode"] = func(a []V) string {
+		T := a[0].I32()
+		if !c04DecOK(T) {
+			panic("out of the correspondence domain")
+		}
+		ps := bmtree.PathsOf(a[2].Strs(), a[1].I32(), int32(c04Height(T)), true)
+		idx := make([]int32, len(ps))
+		for i, p := range ps {
+			idx[i] = bmtree.PathToIndex(T, p)
+		}
+		return L(U64s(ps), U64s(bmtree.Decode(T, bitmap.Of(idx))))
+	}
+	// the same executors under the /debug names: the name tells the driver which build produced the observation
+	for _, op := range []string{"bmtree.Decode", "bmtree.AllPaths/index", "bmtree.Decode/reencode", "bmtree.Decode/roundtrip", "bmtree.PathsOf/decode"} {
+		Exec[op+"/debug"] = Exec[op]
 	}
 	Register("C04", genC04)
 }
@@ -129,6 +187,33 @@ func c04Count(T int32, from, to uint64) int {
 		}
 	}
 	return n
+}
+
+// c04Nth returns the k-th stored word in [from, to) (same enumeration as c04Count).
+func c04Nth(T int32, from, to uint64, k int) uint64 {
+	h := c04Height(T)
+	lo, hi := from>>32, to>>32
+	if last := uint64(1)<<uint(h) - 1; hi > last {
+		hi = last
+	}
+	for i := lo; i <= hi && i >= lo; i++ {
+		tz := h
+		if i != 0 && bits.TrailingZeros64(i) < h {
+			tz = bits.TrailingZeros64(i)
+		}
+		for l := h - tz; l <= h; l++ {
+			if T>>uint(l)&1 == 1 {
+				w := i<<32 | (uint64(1)<<uint(l)-1)<<uint(h-l)
+				if from <= w && w < to {
+					if k == 0 {
+						return w
+					}
+					k--
+				}
+			}
+		}
+	}
+	return from
 }
 
 func c04NB(n int) string {
@@ -193,8 +278,14 @@ func c04Cls(T int32, x uint64) string {
 }
 
 func genC04(g *Gen) {
+	// in the -tags debug build only the operations that reach PathToIndex (whose contracts are then
+	// active) are run, under their /debug names
+	sfx := c03Suffix
+	rel := sfx == ""
 	allpaths := func(T int32, from, to uint64, bucket string) {
-		g.Stat(bucket)
+		if rel {
+			g.Stat(bucket)
+		}
 		h := c04Height(T)
 		n := c04Count(T, from, to)
 		key := ""
@@ -202,7 +293,34 @@ func genC04(g *Gen) {
 		if n > 0 && (from > 0 || to <= c04Word(h, c04Node{uint64(1)<<uint(h) - 1, h})) {
 			key = fmt.Sprintf("A/%s/%s/f:%s/t:%s/%s", c03Kind(T), c04HB(h), c04Cls(T, from), c04Cls(T, to), c04NB(n))
 		}
-		g.Do("bmtree.AllPaths", L(I32(T), U(from), U(to)), key)
+		if rel {
+			g.Do("bmtree.AllPaths", L(I32(T), U(from), U(to)), key)
+		}
+		// widening ops on a share of the same windows
+		if rel && from <= to && (h > 5 && g.R.Intn(3) == 0 || g.R.Intn(32) == 0) {
+			mid := from + (to-from)/2
+			if n > 0 && g.R.Bool() {
+				// split at (or next to) a word inside the window
+				mid = c04Nth(T, from, to, g.R.Intn(n)) + uint64(g.R.Intn(2))
+			}
+			if mid < from || mid > to {
+				mid = from
+			}
+			k2 := ""
+			if key != "" {
+				k2 = "S" + key[1:]
+			}
+			g.Stat("split")
+			g.Do("bmtree.AllPaths/split", L(I32(T), U(from), U(mid), U(to)), k2)
+		}
+		if h <= 11 && (h > 5 && g.R.Intn(2) == 0 || g.R.Intn(32) == 0) {
+			k2 := ""
+			if key != "" {
+				k2 = "I" + key[1:]
+			}
+			g.Stat("index")
+			g.Do("bmtree.AllPaths/index"+sfx, L(I32(T), U(from), U(to)), k2)
+		}
 	}
 	decode := func(T int32, bm []uint64, bucket string) {
 		g.Stat(bucket)
@@ -232,7 +350,15 @@ func genC04(g *Gen) {
 		if in > 0 && in < int(T) {
 			key = fmt.Sprintf("D/%s/%s/%s/beyond%v/%s", c03Kind(T), c04HB(h), lb, beyond, c04NB(in))
 		}
-		g.Do("bmtree.Decode", L(I32(T), U64s(bm)), key)
+		g.Do("bmtree.Decode"+sfx, L(I32(T), U64s(bm)), key)
+		if T > 10 || g.R.Intn(8) == 0 {
+			k2 := ""
+			if key != "" {
+				k2 = "E" + key[1:]
+			}
+			g.Stat("reencode")
+			g.Do("bmtree.Decode/reencode"+sfx, L(I32(T), U64s(bm)), k2)
+		}
 	}
 	roundtrip := func(T int32, S []c04Node, bucket string) {
 		g.Stat(bucket)
@@ -245,12 +371,12 @@ func genC04(g *Gen) {
 		if len(S) > 0 && len(S) < int(T) {
 			key = fmt.Sprintf("R/%s/%s/%s", c03Kind(T), c04HB(h), c04NB(len(S)))
 		}
-		g.Do("bmtree.Decode/roundtrip", L(I32(T), L(xs...)), key)
+		g.Do("bmtree.Decode/roundtrip"+sfx, L(I32(T), L(xs...)), key)
 	}
 
 	// (0) held variants first thing in the run, over ascending output sizes (capacity boundaries of
 	//     a reused buffer are crossed): two calls, then both results are compared
-	for h := 0; h <= 9; h++ {
+	for h := 0; rel && h <= 9; h++ {
 		for _, T := range []int32{int32(1)<<uint(h+1) - 1, int32(1) << uint(h), int32(1)<<uint(h) | 1, int32(1)<<uint(h) | int32(0x155)&(int32(1)<<uint(h)-1)} {
 			h2 := (h + 3) % 7
 			T2 := int32(1)<<uint(h2+1) - 1 - int32(g.R.Intn(1<<uint(h2)))
@@ -288,8 +414,8 @@ func genC04(g *Gen) {
 		return r
 	}
 
-	// (1) exhaustive AllPaths: every T < 2^5 (thorough: 2^6) x every (from, to) drawn from the candidates
-	full := int32(1 << 5)
+	// (1) exhaustive AllPaths: every T < 2^4 (thorough: 2^6) x every (from, to) drawn from the candidates
+	full := int32(1 << 4)
 	if g.Thorough {
 		full = 1 << 6
 	}
@@ -297,26 +423,38 @@ func genC04(g *Gen) {
 		cs := cands(T)
 		for _, f := range cs {
 			for _, t := range cs {
+				// the empty half from > to is sampled 1 in 4 on the largest trees (time budget of the thorough tier)
+				if T >= 32 && f > t && g.R.Intn(4) != 0 {
+					continue
+				}
 				allpaths(T, f, t, "A-exh")
 			}
 		}
 	}
-	g.Exhaust = append(g.Exhaust, fmt.Sprintf("AllPaths: every level mask T in [1,%d) x every (from,to) from {every stored path word, +1, -1, 0, 2^64-1}", full))
+	if rel {
+		note := ""
+		if g.Thorough {
+			note = " (for T >= 32: every pair with from <= to, one in four of the pairs with from > to)"
+		}
+		g.Exhaust = append(g.Exhaust, fmt.Sprintf("AllPaths: every level mask T in [1,%d) x every (from,to) from {every stored path word, +1, -1, 0, 2^64-1}%s", full, note))
+	}
 	if !g.Thorough {
-		// T in [2^5, 2^6): every from-candidate x {0, max, from itself, 6 random candidates} and the transpose
-		for T := int32(1 << 5); T < 1<<6; T++ {
+		// T in [2^4, 2^6): every candidate as from (to = max), as to (from = 0), as both, and with 4 random partners
+		for T := int32(1 << 4); T < 1<<6; T++ {
 			cs := cands(T)
 			for _, f := range cs {
 				allpaths(T, f, ^uint64(0), "A-exh6")
 				allpaths(T, 0, f, "A-exh6")
 				allpaths(T, f, f, "A-exh6")
-				for j := 0; j < 6; j++ {
+				for j := 0; j < 4; j++ {
 					t := cs[g.R.Intn(len(cs))]
 					allpaths(T, f, t, "A-exh6")
 				}
 			}
 		}
-		g.Exhaust = append(g.Exhaust, "AllPaths: every T in [2^5,2^6) x every candidate x as from with to=max, as to with from=0, as from=to")
+		if rel {
+			g.Exhaust = append(g.Exhaust, "AllPaths: every T in [2^4,2^6) x every candidate as from with to=max, as to with from=0, as from=to")
+		}
 	}
 
 	// (2) exhaustive Decode and round trip: every T <= 10 (thorough: 14) x every T-bit bitmap
@@ -396,7 +534,7 @@ func genC04(g *Gen) {
 		}
 		return w
 	}
-	n := g.N(6000, 200000)
+	n := g.N(6000, 60000)
 	for k := 0; k < n; k++ {
 		h := g.R.Range(0, 30)
 		switch g.R.Intn(8) {
@@ -593,5 +731,135 @@ func genC04(g *Gen) {
 			}
 		}
 		roundtrip(T, S, "R-rand-"+mk+"-"+c04HB(h))
+	}
+
+	// (5) keys -> PathsOf -> PathToIndex -> Of -> Decode: sorted byte strings sharing their first `from`
+	//     bits; a key either reaches the leaf level or ends exactly on a stored level
+	n = g.N(400, 6000)
+	for k := 0; k < n; k++ {
+		from := g.R.Pick(0, 0, 3, 8, 13, 16, 21)
+		h := g.R.Range(1, 14)
+		if g.R.Intn(3) == 0 {
+			h = g.R.Range(8, 12)
+		}
+		T := uint32(1) << uint(h)
+		var short []int // stored levels on which a key may end
+		for l := 0; l < h; l++ {
+			if (from+l)%8 == 0 {
+				if g.R.Bool() {
+					T |= 1 << uint(l)
+					short = append(short, l)
+				}
+			} else if g.R.Intn(3) == 0 {
+				T |= 1 << uint(l)
+			}
+		}
+		prefix := g.R.U64()
+		bit := func(b []byte, i int, v uint64) {
+			if v&1 == 1 {
+				b[i>>3] |= 0x80 >> uint(i&7)
+			}
+		}
+		m := g.R.Pick(0, 1, 2, 3, 5, 8, 12, 20)
+		keys := make([]string, 0, m)
+		paths := map[uint64]bool{}
+		var pool []uint64 // leaf values to repeat (keys that differ only beyond the window)
+		for j := 0; j < m; j++ {
+			l := h
+			if len(short) > 0 && g.R.Intn(3) == 0 {
+				l = short[g.R.Intn(len(short))]
+			}
+			v := g.R.U64() & (uint64(1)<<uint(l) - 1)
+			switch g.R.Intn(6) {
+			case 0:
+				v = 0
+			case 1:
+				v = uint64(1)<<uint(l) - 1
+			case 2:
+				if l == h && len(pool) > 0 {
+					v = pool[g.R.Intn(len(pool))]
+				}
+			}
+			if l == h {
+				pool = append(pool, v)
+			}
+			nbits := from + l
+			nbytes := (nbits + 7) / 8
+			if l == h {
+				nbytes += g.R.Intn(3)
+			}
+			b := make([]byte, nbytes)
+			if l == h { // random tail beyond the window
+				for i := range b {
+					b[i] = byte(g.R.U64())
+				}
+				for i := 0; i < nbits; i++ {
+					b[i>>3] &^= 0x80 >> uint(i&7)
+				}
+			}
+			for i := 0; i < from; i++ {
+				bit(b, i, prefix>>uint(i))
+			}
+			for i := 0; i < l; i++ {
+				bit(b, from+i, v>>uint(l-1-i))
+			}
+			keys = append(keys, string(b))
+			paths[uint64(l)<<32|v] = true
+		}
+		sort.Strings(keys)
+		g.Stat("K-keys")
+		key := ""
+		if len(paths) >= 2 {
+			key = fmt.Sprintf("K/%s/from%d/%s/dup%v", c04HB(h), from%8, c04NB(len(paths)), len(paths) < len(keys))
+		}
+		g.Do("bmtree.PathsOf/decode"+sfx, L(I32(int32(T)), Int(from), Strs(keys)), key)
+	}
+
+	// (6) sub-tree windows: every T < 2^5 x every node; random heights 0..30 with nodes at most 13
+	//     levels above the leaves
+	if rel {
+		subtree := func(T int32, v uint64, l int, bucket string) {
+			h := c04Height(T)
+			g.Stat(bucket)
+			key := ""
+			if l > 0 && l < h {
+				key = fmt.Sprintf("U/%s/%s/below%d", c03Kind(T), c04HB(h), h-l)
+			}
+			g.Do("bmtree.AllPaths/subtree", L(I32(T), c10Node(v, l)), key)
+		}
+		for T := int32(1); T < 1<<5; T++ {
+			h := c04Height(T)
+			for l := 0; l <= h; l++ {
+				for v := uint64(0); v < 1<<uint(l); v++ {
+					subtree(T, v, l, "U-exh")
+				}
+			}
+		}
+		g.Exhaust = append(g.Exhaust, "AllPaths/subtree: every level mask T in [1,2^5) x every node")
+		n = g.N(1200, 20000)
+		for k := 0; k < n; k++ {
+			h := g.R.Range(0, 30)
+			if g.R.Intn(8) == 0 {
+				h = 30
+			}
+			T, mk := mask(h)
+			below := g.R.Intn(8)
+			if g.R.Intn(6) == 0 {
+				below = g.R.Range(8, 12)
+			}
+			if below > h {
+				below = h
+			}
+			l := h - below
+			ones := uint64(1)<<uint(l) - 1
+			v := g.R.U64() & ones
+			switch g.R.Intn(6) {
+			case 0:
+				v = 0
+			case 1:
+				v = ones
+			}
+			subtree(T, v, l, "U-rand-"+mk+"-"+c04HB(h))
+		}
 	}
 }
